@@ -25,9 +25,11 @@ RewardAt(h) == LET era == h \div 210000 IN IF era < 2 THEN 2000000000 ELSE IF er
 
 TInit == Init /\ l = 1
 TBegin == Is("cmd") /\ acc' = Acc0 /\ UNCHANGED <<chain, cur>>
-TxOf(e) == [cb |-> e.cb, nin |-> e.nin, size |-> e.size,
+\* is_coinbase: exactly one input and that input is the null outpoint (the logged `cb` is the code's own answer)
+CbOf(e) == IF "in0_null" \in DOMAIN e THEN e.nin = 1 /\ e.in0_null ELSE e.cb
+TxOf(e) == [cb |-> CbOf(e), nin |-> e.nin, size |-> e.size,
             outs |-> [i \in 1..Len(e.vals) |-> [val |-> atoi(e.vals[i]), typ |-> e.types[i]]]]
-TStx == Is("stx") /\ acc' = TxEffect(acc, TxOf(E), RewardAt(E.h), <<E.h, E.txid>>) /\ UNCHANGED <<chain, cur>>
+TStx == Is("stx") /\ E.cb = CbOf(E) /\ acc' = TxEffect(acc, TxOf(E), RewardAt(E.h), <<E.h, E.txid>>) /\ UNCHANGED <<chain, cur>>
 
 Agrees(a, e) ==
   /\ a.blocks = e.blocks /\ a.txs = e.txs /\ a.ins = e.ins /\ a.outs = e.outs
